@@ -51,12 +51,12 @@ func confirmExit(r *runner, args []int64, v gosym.PathOutcome) (bool, string) {
 	}
 	stub := filepath.Join(r.scratch, "invoke_stub.go")
 	os.WriteFile(stub, []byte(invokeStub), 0o644)
-	ov, _ := json.Marshal(map[string]any{"Replace": map[string]string{"/repo/sdk/invoke.go": stub}})
+	ov, _ := json.Marshal(map[string]any{"Replace": map[string]string{repoRoot()+"/sdk/invoke.go": stub}})
 	ovf := filepath.Join(r.scratch, "exit-overlay.json")
 	os.WriteFile(ovf, ov, 0o644)
 	bin := filepath.Join(r.scratch, "thriftgo-exit")
 	b := exec.Command("go", "build", "-overlay", ovf, "-o", bin, ".")
-	b.Dir, b.Env = "/repo", r.env
+	b.Dir, b.Env = repoRoot(), r.env
 	if out, err := b.CombinedOutput(); err != nil {
 		return false, fmt.Sprintf("cannot build main with the stubbed sdk: %v %s", err, tail(string(out), 400))
 	}
